@@ -53,6 +53,7 @@ def destroy_then_fail_rule(prog, rep, only_files=None):
     cancels something that existed before the call (reached through a parameter or a global, not acquired in the call) goes
     on to a failure return.  (Delete-then-re-add is not an update: if the re-add cannot allocate, the entry is gone and the
     caller is told the operation did not happen.)"""
+    prog = prog.raw()          # summary-based: the view without inlined helpers (ir.Program.raw)
     n = 0
     for up in (only_files or DESTROY_UNITS):
         if up not in prog.units:
@@ -180,6 +181,7 @@ def double_free_rule(prog, rep, only_files=None, alloc_only=True):
     """No object is released twice: inside one function (a release of a path released earlier on some way there, nothing
     assigned to it in between), and across a failed call -- a callee that releases an argument on its own failure paths
     while its caller, finding that the call failed, releases the same argument."""
+    prog = prog.raw()          # summary-based: the view without inlined helpers (ir.Program.raw)
     # this property quantifies over allocation failures: a second release counts when the way to it has passed the failure edge
     # of an operation that can fail for lack of memory (other double releases are outside its scope and are not reported here)
     D = own.DoubleFree(prog, alloc_only=alloc_only)
@@ -213,6 +215,7 @@ def double_free_rule(prog, rep, only_files=None, alloc_only=True):
 
 def leak_rules(prog, rep, only_files=None):
     """only_files: analyse just the functions defined in these files (acquirers are still discovered over the whole program)."""
+    prog = prog.raw()          # summary-based: the view without inlined helpers (ir.Program.raw)
     acq = own.discover_acquirers(prog)
     L = own.Leak(prog, acq)
     N = own.NullChk(prog, acq)
@@ -462,6 +465,7 @@ def static_atomic_rule(prog, rep, only_files=None):
     failure edge reaches a failure return -- the recorded capacity or count would then describe storage that was never obtained.
     (An assignment on the way from the failure edge to the return counts as the roll-back; constants and results of lazy
     initialisation are not bookkeeping of this call.)"""
+    prog = prog.raw()          # summary-based: the view without inlined helpers (ir.Program.raw)
     from ..dataflow import Solver, edge_kinds
     acq = own.discover_acquirers(prog)
     n = 0
@@ -549,6 +553,7 @@ def dropped_rule(prog, rep, only_files=None):
     or a pointer), the answer of a callee that can fail for lack of memory (own.alloc_fallible: through its own callees) is not
     thrown away -- an expression statement or a cast to void.  (`(void)poke(W); return (0);` reports a write as queued and sent
     when launching it failed.)"""
+    prog = prog.raw()          # summary-based: the view without inlined helpers (ir.Program.raw)
     n = 0
     for f in prog.all_funcs():
         if f.file.startswith("/") or (only_files is not None and f.file not in only_files):
@@ -580,6 +585,7 @@ def reported_rule(prog, rep, only_files=None):
     """"Allocation failure is reported": from the NULL edge of every tested acquisition, every return that can be reached
     carries the function's failure value (non-zero for int functions, NULL for pointer functions) -- a cleanup ladder that
     falls through into the success return reports success with the work undone."""
+    prog = prog.raw()          # summary-based: the view without inlined helpers (ir.Program.raw)
     acq = own.discover_acquirers(prog)
     n = 0
     for f in prog.all_funcs():
@@ -636,6 +642,7 @@ def register_atomic_rule(prog, rep):
     array -- recognised as a same-unit function that changes nfds -- must not be followed by a failure return; a stored event
     record must have been released and the slot cleared).  A left-over pollfd entry with events == 0 is polled for ever and
     trips the POLLNVAL assertion once the caller closes the descriptor."""
+    prog = prog.raw()          # summary-based: the view without inlined helpers (ir.Program.raw)
     from ..dataflow import Solver
     up = "events/events_network.c"
     u = prog.unit(up)
@@ -707,6 +714,7 @@ def reserve_flag_rule(prog, rep):
     """netbuf_write_reserve() marks the writer as having space reserved before it allocates; when the allocation fails
     it returns NULL, so no reservation exists, and the mark must be gone again: every later reserve, write and completion
     handler asserts that nothing is reserved, so a stale mark turns the next call on that writer into an abort."""
+    prog = prog.raw()          # summary-based: the view without inlined helpers (ir.Program.raw)
     from ..dataflow import Solver
     u = prog.unit("netbuf/netbuf_write.c")
     f = u.func("netbuf_write_reserve")
@@ -748,6 +756,7 @@ def reserve_flag_rule(prog, rep):
 
 
 def atomic_rule(prog, rep):
+    prog = prog.raw()          # summary-based: the view without inlined helpers (ir.Program.raw)
     A = own.Atomic(prog)
     for up in CONTAINER_UNITS:
         u = prog.unit(up)
@@ -769,6 +778,7 @@ def atomic_rule(prog, rep):
 
 
 def infallible_rule(prog, rep):
+    prog = prog.raw()          # summary-based: the view without inlined helpers (ir.Program.raw)
     memo = {}
 
     def alloc_reach(g, stack=()):
